@@ -475,4 +475,213 @@ def run(chk, rng, n: int, tier: str = "quick"):  # noqa: C901, PLR0912, PLR0915
                 bad.append({"what": "ArrayMultiplication(Ry(a), Rz(b), p) code (three arrays) is not the chain product Ry(a)(Rz(b) p)",
                             "cse": cse, "a": a, "b": angs2[k], "p": PR[k].tolist(),
                             "observed": np.asarray(V)[k].tolist() if V.ndim == 2 else None})  # noqa: PLR2004
+    run_compound(chk, rng, n, bad)
     return bad
+
+
+def run_compound(chk, rng, n: int, bad: list):  # noqa: C901, PLR0912, PLR0915
+    """Compound ARGUMENTS (sums, differences, negated quotients, powers, products with a sum; sums of
+    arrays; boosted momenta): the printed templates must keep their argument holes atomic. For each
+    instance the real lambdified code (cse off / on) is compared with the textbook matrix at the value
+    of the argument (mpmath), with the library's own `as_explicit()` evaluated numerically, and the
+    Lorentz condition is checked on the returned doubles."""
+    import mpmath
+    import numpy as np
+    import sympy as sp
+
+    from ampform.kinematics import lorentz as lz
+    from ampform.sympy._array_expressions import ArrayMultiplication, ArraySum
+
+    mp = mpmath.mp
+    eta = mp.matrix(4, 4)
+    for i in range(4):
+        eta[i, i] = 1 if i == 0 else -1
+    b1, b2, eps = sp.symbols("b1 b2 epsilon", real=True)
+    p = lz.FourMomentumSymbol("p", shape=[])
+    q = lz.FourMomentumSymbol("q", shape=[])
+    nev = max(4, min(n // 8, 300))
+
+    def lam(args, expr, cse, what):
+        try:
+            return sp.lambdify(args, expr.doit(), "numpy", cse=cse)
+        except Exception as e:  # noqa: BLE001
+            bad.append({"what": f"lambdify failed for {what}", "cse": cse, "error": repr(e)[:300]})
+            return None
+
+    def run_f(f, arrays, what, cse):
+        try:
+            with np.errstate(all="ignore"):
+                return np.asarray(f(*arrays))
+        except Exception as e:  # noqa: BLE001
+            bad.append({"what": f"the generated code of {what} raised (cse={cse})", "cse": cse,
+                        "error": f"{type(e).__name__}: {e}"[:300]})
+            return None
+
+    def explicit_numeric(obj, args, arrays, k):
+        """the library's own as_explicit() with the numbers of event k substituted (sympy evalf)"""
+        subs = {}
+        for a, arr in zip(args, arrays):
+            subs[a] = float(arr[k])
+        m = obj.as_explicit().xreplace(subs).doit()
+        return np.array(m.evalf(30), dtype=complex)
+
+    # ---------------- scalar-argument classes
+    def u(lo, hi):
+        return np.array([rng.uniform(lo, hi) for _ in range(nev)])
+
+    scalar_forms = {
+        "b1 + b2": (b1 + b2, [b1, b2], lambda: [u(-0.45, 0.45), u(-0.45, 0.45)], lambda v: v[0] + v[1]),
+        "b1 - b2": (b1 - b2, [b1, b2], lambda: [u(-0.45, 0.45), u(-0.45, 0.45)], lambda v: v[0] - v[1]),
+        "-b1 - b2": (-(b1 + b2), [b1, b2], lambda: [u(-0.45, 0.45), u(-0.45, 0.45)], lambda v: -(v[0] + v[1])),
+        "1 - epsilon": (1 - eps, [eps], lambda: [np.array([10.0 ** rng.uniform(-6, -0.3) for _ in range(nev)])],
+                        lambda v: 1 - v[0]),
+        "-b1/b2": (-b1 / b2, [b1, b2], lambda: (lambda d: [u(-0.9, 0.9) * d, d])(u(0.3, 3.0)), lambda v: -v[0] / v[1]),
+        "b1**2": (b1**2, [b1], lambda: [u(-0.95, 0.95)], lambda v: v[0] ** 2),
+        "b1*(b1 + b2)": (b1 * (b1 + b2), [b1, b2], lambda: [u(-0.6, 0.6), u(-0.6, 0.6)], lambda v: v[0] * (v[0] + v[1])),
+    }
+    tol_r = 4 * SAFETY * EPS
+    for fname, (arg, syms, gen, val) in scalar_forms.items():
+        arrays = gen()
+        mp_arrays = None
+        for cname, cls in (("BoostZMatrix", lz.BoostZMatrix), ("RotationYMatrix", lz.RotationYMatrix),
+                           ("RotationZMatrix", lz.RotationZMatrix)):
+            obj = cls(arg, n_events=lz.ArraySize(syms[0]))
+            what = f"{cname}({fname})"
+            for cse in (False, True):
+                f = lam(syms, obj, cse, what)
+                if f is None:
+                    continue
+                M = run_f(f, arrays, what, cse)
+                if M is None:
+                    continue
+                if M.shape != (nev, 4, 4):
+                    bad.append({"what": f"{what} code has the wrong shape", "cse": cse, "shape": list(M.shape)})
+                    continue
+                for k in range(nev):
+                    # value of the argument from the very doubles, in 60 digits
+                    mv = [mp.mpf(float(a[k])) for a in arrays]
+                    x = val(mv)
+                    case = {"cse": cse, "argument": fname, "values": [float(a[k]) for a in arrays], "argument_value": float(x)}
+                    chk.count(("compound", cname, fname, cse, k))
+                    L = mp_of(M[k], mp)
+                    if cname == "BoostZMatrix":
+                        g = 1 / mp.sqrt(1 - x * x)
+                        gf = float(g)
+                        # the argument itself is rounded by the code: d(gamma)/gamma = gamma^2 beta d(beta)
+                        rel = gamma_err(gf) + 4 * EPS * gf * gf
+                        ref = mp.eye(4)
+                        ref[0, 0] = ref[3, 3] = g
+                        ref[0, 3] = ref[3, 0] = -g * x
+                        tol_e = SAFETY * rel * gf + SAFETY * EPS
+                        tol_l = SAFETY * 8 * gf * gf * rel + SAFETY * EPS
+                    else:
+                        c, sn = mp.cos(x), mp.sin(x)
+                        ref = mp.eye(4)
+                        if cname == "RotationYMatrix":
+                            ref[1, 1] = ref[3, 3] = c
+                            ref[1, 3] = sn
+                            ref[3, 1] = -sn
+                        else:
+                            ref[1, 1] = ref[2, 2] = c
+                            ref[1, 2] = -sn
+                            ref[2, 1] = sn
+                        tol_e = tol_r * (1 + abs(float(x)))
+                        tol_l = tol_r
+                    if not np.all(np.isfinite(M[k])) or max_abs(L - ref) > tol_e:
+                        bad.append({"what": f"{cname} code with a compound argument differs from the matrix at the value of the argument",
+                                    **case, "max_abs_diff": float(max_abs(L - ref)) if np.all(np.isfinite(M[k])) else None,
+                                    "tolerance": tol_e, "observed": M[k].tolist()})
+                        continue
+                    if max_abs(L.T * eta * L - eta) > tol_l:
+                        bad.append({"what": f"L^T eta L != eta for {cname} code with a compound argument", **case})
+                    if k < 2:  # the library's own explicit matrix at the same numbers (slow: sympy evalf)
+                        try:
+                            ex = explicit_numeric(obj, syms, arrays, k)
+                            if np.max(np.abs(ex - M[k])) > tol_e * 4 + 1e-13:
+                                bad.append({"what": f"{cname} code with a compound argument != as_explicit()", **case,
+                                            "max_abs_diff": float(np.max(np.abs(ex - M[k]))), "tolerance": tol_e * 4 + 1e-13})
+                        except Exception as e:  # noqa: BLE001
+                            bad.append({"what": f"as_explicit() of {what} could not be evaluated", "error": repr(e)[:200]})
+
+    # ---------------- velocity computed from a momentum along z: pz/E and 1 - (E - pz)/E
+    zm = []
+    for _ in range(nev):
+        m = 10.0 ** rng.uniform(-2, 1)
+        bg = 10.0 ** rng.uniform(-3, 3) * rng.choice([-1.0, 1.0])
+        pz = m * bg
+        zm.append([math.sqrt(m * m + pz * pz), 0.0, 0.0, pz])
+    PZ = np.array(zm)
+    mom_forms = {
+        "pz/E": lz.FourMomentumZ(p) / lz.Energy(p),
+        "1 - (E - pz)/E": 1 - (lz.Energy(p) - lz.FourMomentumZ(p)) / lz.Energy(p),
+    }
+    for fname, arg in mom_forms.items():
+        obj = lz.BoostZMatrix(arg, n_events=lz.ArraySize(p))
+        what = f"BoostZMatrix({fname})"
+        for cse in (False, True):
+            f = lam([p], obj, cse, what)
+            M = run_f(f, [PZ], what, cse) if f is not None else None
+            if M is None or M.shape != (nev, 4, 4):
+                continue
+            for k, pk in enumerate(zm):
+                Lref, g, _ = mp_boost(pk, mp)
+                gf = float(g)
+                # beta = 1 - (E - pz)/E carries an ABSOLUTE error of a few eps: d(gamma*beta) ~ eps*gamma^3
+                rel = gamma_err(gf) + 8 * EPS * gf * gf
+                tol_e = SAFETY * rel * gf + 4 * SAFETY * EPS
+                chk.count(("compound", "BoostZ(momentum)", fname, cse, k))
+                d = max_abs(mp_of(M[k], mp) - Lref)
+                if not np.all(np.isfinite(M[k])) or d > tol_e:
+                    bad.append({"what": "BoostZMatrix with a velocity computed from a momentum along z != BoostMatrix(p)",
+                                "cse": cse, "argument": fname, "p": pk, "max_abs_diff": float(d), "tolerance": tol_e,
+                                "observed": M[k].tolist()})
+
+    # ---------------- array arguments: sum of momenta, boosted momentum (boost chain), negated sum
+    P = np.array([momentum(rng, (-2.0, 1.5))[0] for _ in range(nev)])
+    Q = np.array([momentum(rng, (-2.0, 1.5))[0] for _ in range(nev)])
+    S = P + Q  # what `p + q` evaluates to in the generated code
+    arr_cases = {
+        "BoostMatrix(p + q)": (lz.BoostMatrix(ArraySum(p, q)), lambda k: [float(c) for c in S[k]]),
+        "BoostMatrix(NegativeMomentum(p + q))": (lz.BoostMatrix(lz.NegativeMomentum(ArraySum(p, q))),
+                                                 lambda k: [float(S[k][0]), *[-float(c) for c in S[k][1:]]]),
+    }
+    for what, (obj, arg_of) in arr_cases.items():
+        for cse in (False, True):
+            f = lam([p, q], obj, cse, what)
+            M = run_f(f, [P, Q], what, cse) if f is not None else None
+            if M is None:
+                continue
+            if M.shape != (nev, 4, 4):
+                bad.append({"what": f"{what} code has the wrong shape", "cse": cse, "shape": list(M.shape)})
+                continue
+            for k in range(nev):
+                Lref, g, _ = mp_boost(arg_of(k), mp)
+                gf = float(g)
+                tol_e = SAFETY * gamma_err(gf) * gf + SAFETY * EPS
+                chk.count(("compound", what, cse, k))
+                d = max_abs(mp_of(M[k], mp) - Lref)
+                if not np.all(np.isfinite(M[k])) or d > tol_e:
+                    bad.append({"what": f"{what} code is not the boost matrix of the summed momentum", "cse": cse,
+                                "p": P[k].tolist(), "q": Q[k].tolist(), "max_abs_diff": float(d), "tolerance": tol_e})
+    # boost chain as built by compute_boost_chain: BoostMatrix(ArrayMultiplication(BoostMatrix(q), p))
+    Pc = np.array([momentum(rng, (-2.0, 1.0))[0] for _ in range(nev)])
+    Qc = np.array([momentum(rng, (-2.0, 1.0))[0] for _ in range(nev)])
+    obj = lz.BoostMatrix(ArrayMultiplication(lz.BoostMatrix(q), p))
+    for cse in (False, True):
+        f = lam([p, q], obj, cse, "boost chain")
+        M = run_f(f, [Pc, Qc], "BoostMatrix(ArrayMultiplication(BoostMatrix(q), p))", cse) if f is not None else None
+        if M is None or M.shape != (nev, 4, 4):
+            continue
+        for k in range(nev):
+            Lq, gq, _ = mp_boost([float(c) for c in Qc[k]], mp)
+            v = Lq * mp.matrix([mp.mpf(float(c)) for c in Pc[k]])
+            Lref, g, _ = mp_boost([v[i] for i in range(4)], mp)
+            gf, gqf = float(g), float(gq)
+            # error of the boosted momentum (relative ~ gamma_err(gq)*gq^2) enters gamma_v with a factor gamma_v^2
+            rel = gamma_err(gf) + 8 * gf * gf * gamma_err(gqf) * gqf * gqf * float(mp.mpf(float(Pc[k][0])) * gq / v[0])
+            tol_e = SAFETY * rel * gf + SAFETY * EPS
+            chk.count(("compound", "boost chain", cse, k))
+            d = max_abs(mp_of(M[k], mp) - Lref)
+            if not np.all(np.isfinite(M[k])) or d > tol_e:
+                bad.append({"what": "BoostMatrix(ArrayMultiplication(BoostMatrix(q), p)) code is not the boost matrix of the boosted momentum",
+                            "cse": cse, "p": Pc[k].tolist(), "q": Qc[k].tolist(), "max_abs_diff": float(d), "tolerance": tol_e})
